@@ -65,6 +65,18 @@ def handle1 (txID : Nat) (args : List String) (impl : String) : Verdict :=
       { model := match tcpDecodeServer b with
           | .ok (_, id, fc, d) => s!"ok {id.toNat} {fc} {toHex d}" | .err e => "err " ++ e | .panic p => "PANIC " ++ p }
     | _, _ => bad "C19 fr"
+  | ["fq", k, h] =>
+    match k.toNat?, ofHex h with
+    | some k, some b =>
+      -- specification: an answer is accepted exactly when it is long enough and carries the transaction id of the request
+      let accepted := impl.startsWith "ok"
+      let should := match b with
+        | t1 :: t0 :: _ => decide (b.length ≥ 9) && decide (t1.toNat * 256 + t0.toNat = k % 65536)
+        | _ => false
+      { model := match tcpDecodeClient (k % 65536) b with
+          | .ok (id, fc, d) => s!"ok {id.toNat} {fc} {toHex d}" | .err e => "err " ++ e | .panic p => "PANIC " ++ p,
+        spec := some (accepted == should), note := if accepted == should then "" else "class=answer-with-foreign-transaction-id-accepted" }
+    | _, _ => bad "C19 fq"
   | ["cv", kind, vs] =>
     match (parseList vs).mapM String.toNat? with
     | some vs =>
